@@ -28,6 +28,8 @@ func (w vfsWriter) Write(b []byte) (int, error) { return w.f.Write(b) }
 
 const crashEarlier = "EARLIER-LIFE: a line this process's previous life (same second, same file name) was acknowledged for\n"
 
+const crashEarlierPayload = "ev9-line-of-the-first-life"
+
 type crashObs struct {
 	acks []string
 	err  string
@@ -56,6 +58,13 @@ func crashRun(c c03Cfg, threads [][]c03Event, o *crashObs, stop bool, faultOp st
 			o.err = "refresh: " + err.Error()
 		} else if c.rootless {
 			log.Destroy() // the events below are served by the built-in console logger, after a configuration without a root has come and gone
+		} else if c.secondLife {
+			// an earlier life of the same configuration in this process: used once, destroyed, refreshed again
+			c03Emit(c03Event{tag: 0, payload: crashEarlierPayload})
+			log.Destroy()
+			if err := log.Refresh(c.config()); err != nil {
+				o.err = "second refresh: " + err.Error()
+			}
 		}
 	})
 	if o.err != "" {
@@ -113,6 +122,13 @@ func crashScenario(c c03Cfg, b zzvrt.Bounds, faultOps ...string) *zzvrt.Scenario
 	}
 	if c.preExist {
 		isLine[crashEarlier] = true
+	}
+	if c.secondLife {
+		for _, l := range strings.SplitAfter(crashTarget(rx, c), "\n") {
+			if strings.Contains(l, crashEarlierPayload) {
+				isLine[l] = true
+			}
+		}
 	}
 	var o crashObs
 	return &zzvrt.Scenario{
@@ -213,6 +229,18 @@ func init() {
 			b.Env[zzvrt.SeamCrash] = 1
 			return crashScenario(c03Cfg{layout: "TextLayout", sink: sink, threads: shapes["1x3"], preExist: true}, b)
 		})
+	}
+	// a second life of the same configuration in one process (Refresh, use, Destroy, Refresh), with an absolute and with a
+	// RELATIVE log directory: what the second life is acknowledged for is in the file
+	for _, sink := range []string{"file", "rolling", "rolling-logger"} {
+		for _, rel := range []bool{false, true} {
+			sink, rel := sink, rel
+			register("C20", fmt.Sprintf("c20/%s/second-life/relative-dir=%v/1x3", sink, rel), "qt", func(tier string) *zzvrt.Scenario {
+				b := zzvrt.Bounds{Preempt: 1, Horizon: 5000}
+				b.Env[zzvrt.SeamCrash] = 1
+				return crashScenario(c03Cfg{layout: "TextLayout", sink: sink, threads: shapes["1x3"], secondLife: true, relDir: rel}, b)
+			})
+		}
 	}
 	// the built-in console logger AFTER a lifecycle: a configuration without a root logger was live and has been destroyed
 	for _, shape := range []string{"1x3", "2x2"} {
